@@ -77,17 +77,19 @@ type gctx struct {
 	svcs   []*Def
 	consts []*Def
 
-	usedTypeNames map[string]bool
-	namesByFile   map[string]map[string]bool
-	allTypeNames  []string
-	sigTypedefs   []*Def // typedefs function signatures should prefer (TypedefArgs)
-	structOnlyOK  bool   // the field list under construction belongs to a struct or union
-	hden          int    // see hostileDen
-	negIDsOK      bool   // negative field ids may be drawn (inside genStruct)
-	clusterName   string // a type name every file of the program defines (name clusters)
-	clusterConsts []clusterConst
-	enumItemNames []string // Go constant names of generated enum items (hostile collisions)
-	sameBaseRun   bool     // the program has a run of same-named files (SameBaseRuns)
+	usedTypeNames  map[string]bool
+	namesByFile    map[string]map[string]bool
+	allTypeNames   []string
+	sigTypedefs    []*Def // typedefs function signatures should prefer (TypedefArgs)
+	structOnlyOK   bool   // the field list under construction belongs to a struct or union
+	hden           int    // see hostileDen
+	negIDsOK       bool   // negative field ids may be drawn (inside genStruct)
+	clusterName    string // a type name every file of the program defines (name clusters)
+	clusterConsts  []clusterConst
+	clusterKind    int
+	clusterKindSet bool
+	enumItemNames  []string // Go constant names of generated enum items (hostile collisions)
+	sameBaseRun    bool     // the program has a run of same-named files (SameBaseRuns)
 }
 
 func (g *gctx) label(s string) string { g.n++; return fmt.Sprintf("%s%d", s, g.n) }
@@ -459,12 +461,32 @@ func (g *gctx) genFile(f *File) {
 		if en != nil {
 			shapes = append(shapes, &Type{K: TRef, Ref: &Ref{File: f.Path, Name: en.Name}})
 		}
+		var unhashable []*Def
 		for _, sh := range shapes {
 			if g.chance(2, 3, "tdshape") {
 				td := &Def{Kind: DTypedef, Name: g.newTypeName(), Target: sh}
 				g.defGoName(td)
 				add(td)
 				g.sigTypedefs = append(g.sigTypedefs, td)
+				switch sh.K {
+				case TBinary, TList, TSet, TMap:
+					unhashable = append(unhashable, td)
+				}
+			}
+		}
+		// containers keyed by a typedef whose target cannot be a Go map key (the representation
+		// of the container depends on the ROOT of its key type)
+		for _, td := range unhashable {
+			ref := &Type{K: TRef, Ref: &Ref{File: f.Path, Name: td.Name}}
+			if g.chance(1, 2, "tdkeyed_map") {
+				k := &Def{Kind: DTypedef, Name: g.newTypeName(), Target: &Type{K: TMap, Key: ref, Val: &Type{K: TI64}}}
+				add(k)
+				g.sigTypedefs = append(g.sigTypedefs, k)
+			}
+			if g.chance(1, 3, "tdkeyed_set") {
+				k := &Def{Kind: DTypedef, Name: g.newTypeName(), Target: &Type{K: TSet, Elem: ref}}
+				add(k)
+				g.sigTypedefs = append(g.sigTypedefs, k)
 			}
 		}
 	}
@@ -490,7 +512,14 @@ type clusterConst struct{ file, name, shape string }
 // several same-named types of different packages apart.
 func (g *gctx) genCluster(f *File, add func(*Def)) {
 	own := &Def{Kind: DStruct, Name: g.clusterName}
-	switch g.intn(0, 4, "cluster_kind") {
+	// the files of a program tend to define the shared name as the same kind of thing (two
+	// exceptions of one name thrown by one function, two structs of one name cast into each other)
+	kind := g.intn(0, 4, "cluster_kind")
+	if g.clusterKindSet && g.chance(1, 2, "cluster_kind_same") {
+		kind = g.clusterKind
+	}
+	g.clusterKind, g.clusterKindSet = kind, true
+	switch kind {
 	case 4:
 		own.Kind = DException
 		own.Fields = []*Field{{ID: 1, Name: "reason", Type: &Type{K: TString}, Req: "optional"}}
